@@ -7,6 +7,9 @@ import (
 	"sort"
 	"strings"
 
+	"github.com/invopop/gobl/bill"
+	"github.com/invopop/gobl/currency"
+
 	"verif/internal/corpus"
 	"verif/internal/dec"
 	"verif/internal/ev"
@@ -65,7 +68,12 @@ func c03identities(d *c03doc, c int) (name, detail string, n int) {
 // totalsOnly skips the per-line identities (used on the result of
 // RemoveIncludedTaxes, whose line discounts and charges are derived amounts kept
 // with more decimals than the currency: as inputs they are outside the stated domain).
-func c03identitiesOpt(d *c03doc, c int, totalsOnly bool) (name, detail string, n int) {
+func c03identitiesOpt(d *c03doc, c int, totalsOnly bool, derivedAdvances ...bool) (name, detail string, n int) {
+	// derivedAdvances: the advance rows are amounts the library derived itself with
+	// more decimals than it presents (Invoice.ConvertInto); like fixed amounts
+	// supplied with excess decimals they are outside the stated domain, so the rows
+	// are not added up and the due amount is taken from totals.advance
+	derived := len(derivedAdvances) > 0 && derivedAdvances[0]
 	eq := func(a, b dec.D) bool { return a.Cmp(b) == 0 }
 	decs := func(s string) int {
 		x, ok := dec.Parse(s)
@@ -235,6 +243,9 @@ func c03identitiesOpt(d *c03doc, c int, totalsOnly bool) (name, detail string, n
 			}
 		}
 		n++
+		if derived && t.Advances != nil {
+			a = mustD(*t.Advances)
+		}
 		if t.Advances == nil || !eq(a, mustD(*t.Advances)) {
 			return "advance-sum", fmt.Sprintf("Σ advances = %s but totals.advance = %v", a, strOrNil(t.Advances)), n
 		}
@@ -340,6 +351,50 @@ func runC03(c *Ctx) {
 				}
 			}
 		}
+		// a third entry point that produces totals: the invoice converted into another
+		// currency with an exchange rate it declares (Invoice.ConvertInto recalculates
+		// under the same rule); the converted document presents figures that must
+		// re-add at the precision of the new currency
+		if bytes.Contains(out, []byte(`"https://gobl.org/draft-0/bill/invoice"`)) && !strings.HasPrefix(origin, "recalculated") {
+			h := ev.HashBytes(in)
+			targets := []string{"EUR", "USD", "JPY", "KWD", "GBP", "MXN"}
+			target := targets[h%uint64(len(targets))]
+			if target == d.Currency {
+				target = targets[(h+1)%uint64(len(targets))]
+			}
+			rate := []string{"0.8731", "151.2345", "1.0734", "0.30712", "19.99", "1.000001", "0.0065"}[(h/7)%7]
+			if n, perr := jmut.Parse(in); perr == nil {
+				xr := n.Get("exchange_rates")
+				if xr == nil || xr.K != jmut.Arr {
+					xr = jmut.Ar()
+					n.Set("exchange_rates", xr)
+				}
+				xr.A = append(xr.A, jmut.O(jmut.Member{Key: "from", Val: jmut.S(d.Currency)}, jmut.Member{Key: "to", Val: jmut.S(target)}, jmut.Member{Key: "amount", Val: jmut.S(rate)}))
+				var out3 []byte
+				var cerr error
+				if p, _ := Safely(func() {
+					inv, _, e := calcInvoice(n.Bytes())
+					if cerr = e; e == nil {
+						var conv *bill.Invoice
+						if conv, cerr = inv.ConvertInto(currency.Code(target)); cerr == nil {
+							out3, cerr = json.Marshal(conv)
+						}
+					}
+				}); p != nil {
+					c.R.Fail("panic:convert-into", fmt.Sprintf("%s: ConvertInto(%s) panicked: %v", origin, target, p), map[string]any{"origin": origin, "input": json.RawMessage(n.Bytes())})
+				} else if cerr != nil {
+					c.R.Count("conversions_refused", 1)
+				} else {
+					d3 := new(c03doc)
+					if ct, okt := w.decimals(target); okt && json.Unmarshal(out3, d3) == nil && d3.Currency == target {
+						c.R.Count("identities_after_ConvertInto", 1)
+						if name, det, _ := c03identitiesOpt(d3, ct, true, true); name != "" {
+							c.R.Fail("identity-after-convert-into:"+name, fmt.Sprintf("%s, after ConvertInto(%s at %s): %s", origin, target, rate, det), map[string]any{"origin": origin, "input": json.RawMessage(n.Bytes()), "output": json.RawMessage(out3)})
+						}
+					}
+				}
+			}
+		}
 		return true, len(d.Lines) > 1 || len(d.Discounts) > 0 || len(d.Charges) > 0 || (d.Totals != nil && d.Totals.Taxes != nil)
 	}
 	// corpus with the rule forced to currency
@@ -415,5 +470,5 @@ func runC03(c *Ctx) {
 	for _, k := range keys {
 		c.R.Count(k, tot[k])
 	}
-	c.Require("documents", "identities_evaluated", "identities_after_RemoveIncludedTaxes", "recalculated_after_removing:charges", "feature:preset-rounding")
+	c.Require("documents", "identities_evaluated", "identities_after_RemoveIncludedTaxes", "identities_after_ConvertInto", "recalculated_after_removing:charges", "feature:preset-rounding")
 }
